@@ -20,6 +20,10 @@
     likewise an update in which, at the first differing segment of two literal paths, a positional
     segment (`$`, `$[]`, `$[id]`) meets a field name / index ("a.$[]" with "a.5") — a second FINDING
     (`$min` not idempotent there), fixed in /repo by the second test of `checkPaths`;
+  * §4c `$[identifier]` selects exactly the elements that satisfy some array filter BINDING the
+    identifier; filters of other identifiers are irrelevant (`array_filter_own`,
+    `foreign_filter_irrelevant`) — a third FINDING (every supplied filter was consulted, so a foreign
+    filter that holds for a missing field selected everything), fixed in /repo (`resolve`);
   * §5 the change log is conflict free; recorded changes hold in the result for the single-write
     operators (`_partial`: the multi-operator statement is FALSE in the code — see the witness there).
 
@@ -480,6 +484,142 @@ end Tests
 #guard (updatePaths [("$rename", .doc [("a.x.c", .str "x")]), ("$inc", .doc [("x", .i32 (-1))])])[1]? == some "x" &&
   (updatePaths [("$rename", .doc [("a.x.c", .str "x")]), ("$inc", .doc [("x", .i32 (-1))])])[2]? == some "x" &&
   isPrefixOf (splitPath "x") (splitPath "x")
+
+/-! ## §4c `$[identifier]`: the element is selected by the identifier's OWN array filters
+
+`resolve` at `head.$[id].tail` (the decomposition is `splitDynamicPath`; `identifierOf "$[id]" = id`)
+keeps the array filters that bind `id` (`bindsId`: a key equal to `id` or starting with `id.`), fails if
+there is none, and expands to the indices whose element — wrapped as `{id: element}` — satisfies one of
+them under the query matcher `Match` (`selectedBy`).  Statements are about `resolve` on a document whose
+`head` holds the array `array`; `Apply` calls it with the fuel `countDollar key + 1`. -/
+
+/-- `selectedBy`, declaratively: some supplied filter binds `id` and matches the wrapper `{id: item}`. -/
+theorem selected_iff (sch : SchemaEval) (id : String) (afs : List Doc) (item : V) :
+    selectedBy sch id afs item = true ↔
+      ∃ f ∈ afs, bindsId id f = true ∧ Match sch [(id, item)] f = .ok true :=
+  selectedBy_iff sch id afs item
+
+/-- `selectedIdx` (a `List.filter` over the indexed array) is the ascending list of exactly the
+    indices whose element is selected. -/
+theorem selectedIdx_mem (sch : SchemaEval) (id : String) (afs : List Doc) (array : List V) (k : Nat) :
+    k ∈ selectedIdx sch id afs array ↔ ∃ item, array[k]? = some item ∧ selectedBy sch id afs item = true :=
+  mem_selectedIdx sch id afs array k
+
+theorem selectedIdx_ascending (sch : SchemaEval) (id : String) (afs : List Doc) (array : List V) :
+    (selectedIdx sch id afs array).Pairwise (· < ·) :=
+  selectedIdx_sorted sch id afs array
+
+/-- `array_filter_own` (single `$[id]`: head and tail without `$`): a successful expansion of
+    `head.$[id].tail` is `head.k.tail` for exactly the indices k whose element satisfies some filter
+    binding `id`, in ascending order — for every schema evaluator, document and filter list. -/
+theorem array_filter_own (sch : SchemaEval) (fuel : Nat) (path head operator : String) (tail : Option String)
+    (doc : Doc) (afs : List Doc) (array : List V) (ps : List String)
+    (hsp : splitDynamicPath path = (some head, some operator, tail))
+    (ha : Get doc head = .arr array)
+    (h1 : (operator == "$") = false) (h2 : operator.startsWith "$[" = true) (h3 : operator.endsWith "]" = true)
+    (hid : (identifierOf operator == "") = false)
+    (hh : noDollar head = true) (ht : ∀ t, tail = some t → noDollar t = true)
+    (h : resolve sch (fuel + 2) path doc afs = .ok ps) :
+    ps = (selectedIdx sch (identifierOf operator) afs array).map (fun k => buildPath head k tail) :=
+  resolve_identified_single sch fuel path head operator tail doc afs array ps hsp ha h1 h2 h3 hid hh ht h
+
+/-- `array_filter_own_rec` (general, the tail may hold further positional operators): the expansion
+    is the concatenation, over exactly the selected indices in ascending order, of the expansions of
+    `head.k.tail` (`subPaths` = the result of that recursive call). -/
+theorem array_filter_own_rec (sch : SchemaEval) (fuel : Nat) (path head operator : String) (tail : Option String)
+    (doc : Doc) (afs : List Doc) (array : List V) (ps : List String)
+    (hsp : splitDynamicPath path = (some head, some operator, tail))
+    (ha : Get doc head = .arr array)
+    (h1 : (operator == "$") = false) (h2 : operator.startsWith "$[" = true) (h3 : operator.endsWith "]" = true)
+    (hid : (identifierOf operator == "") = false)
+    (h : resolve sch (fuel + 1) path doc afs = .ok ps) :
+    ps = ((selectedIdx sch (identifierOf operator) afs array).map
+        (fun k => subPaths sch fuel doc afs (buildPath head k tail))).flatten :=
+  resolve_identified_ok sch fuel path head operator tail doc afs array ps hsp ha h1 h2 h3 hid h
+
+/-- no supplied filter binds the identifier: rejected (as before the repair). -/
+theorem unbound_identifier_rejected (sch : SchemaEval) (fuel : Nat) (path head operator : String)
+    (tail : Option String) (doc : Doc) (afs : List Doc) (array : List V)
+    (hsp : splitDynamicPath path = (some head, some operator, tail))
+    (ha : Get doc head = .arr array)
+    (h1 : (operator == "$") = false) (h2 : operator.startsWith "$[" = true) (h3 : operator.endsWith "]" = true)
+    (hid : (identifierOf operator == "") = false)
+    (hb : ∀ f ∈ afs, bindsId (identifierOf operator) f = false) :
+    resolve sch (fuel + 1) path doc afs = .error .err := by
+  rw [resolve_identified sch fuel path head operator tail doc afs array hsp ha h1 h2 h3 hid]
+  have : afs.filter (bindsId (identifierOf operator)) = [] := by
+    rw [List.filter_eq_nil_iff]; intro f hf; simp [hb f hf]
+  rw [this]; rfl
+
+/-- `foreign_filter_irrelevant` (single `$[id]`): two filter lists with the same filters binding `id`
+    give the same expansion (or the same error) — filters of other identifiers do not matter. -/
+theorem foreign_filter_irrelevant (sch : SchemaEval) (fuel : Nat) (path head operator : String)
+    (tail : Option String) (doc : Doc) (afs afs' : List Doc) (array : List V)
+    (hsp : splitDynamicPath path = (some head, some operator, tail))
+    (ha : Get doc head = .arr array)
+    (h1 : (operator == "$") = false) (h2 : operator.startsWith "$[" = true) (h3 : operator.endsWith "]" = true)
+    (hid : (identifierOf operator == "") = false)
+    (hh : noDollar head = true) (ht : ∀ t, tail = some t → noDollar t = true)
+    (hf : afs.filter (bindsId (identifierOf operator)) = afs'.filter (bindsId (identifierOf operator))) :
+    resolve sch (fuel + 2) path doc afs = resolve sch (fuel + 2) path doc afs' :=
+  resolve_filters_single sch fuel path head operator tail doc afs afs' array hsp ha h1 h2 h3 hid hh ht hf
+
+/-- in the form "adding or removing one filter `g` that does not bind `id`, anywhere in the list". -/
+theorem foreign_filter_irrelevant_insert (sch : SchemaEval) (fuel : Nat) (path head operator : String)
+    (tail : Option String) (doc : Doc) (afs₁ afs₂ : List Doc) (g : Doc) (array : List V)
+    (hsp : splitDynamicPath path = (some head, some operator, tail))
+    (ha : Get doc head = .arr array)
+    (h1 : (operator == "$") = false) (h2 : operator.startsWith "$[" = true) (h3 : operator.endsWith "]" = true)
+    (hid : (identifierOf operator == "") = false)
+    (hh : noDollar head = true) (ht : ∀ t, tail = some t → noDollar t = true)
+    (hg : bindsId (identifierOf operator) g = false) :
+    resolve sch (fuel + 2) path doc (afs₁ ++ g :: afs₂) = resolve sch (fuel + 2) path doc (afs₁ ++ afs₂) :=
+  resolve_filters_single sch fuel path head operator tail doc _ _ array hsp ha h1 h2 h3 hid hh ht
+    (filter_bindsId_insert _ afs₁ afs₂ g hg)
+
+/-- general (recursive) step: at one `$[id]` the filter list matters only through the filters binding
+    `id` and through the recursive expansions of `head.k.tail`. -/
+theorem foreign_filter_irrelevant_step (sch : SchemaEval) (fuel : Nat) (path head operator : String)
+    (tail : Option String) (doc : Doc) (afs afs' : List Doc) (array : List V)
+    (hsp : splitDynamicPath path = (some head, some operator, tail))
+    (ha : Get doc head = .arr array)
+    (h1 : (operator == "$") = false) (h2 : operator.startsWith "$[" = true) (h3 : operator.endsWith "]" = true)
+    (hid : (identifierOf operator == "") = false)
+    (hf : afs.filter (bindsId (identifierOf operator)) = afs'.filter (bindsId (identifierOf operator)))
+    (hrec : ∀ k, resolve sch fuel (buildPath head k tail) doc afs = resolve sch fuel (buildPath head k tail) doc afs') :
+    resolve sch (fuel + 1) path doc afs = resolve sch (fuel + 1) path doc afs' :=
+  resolve_filters_congr sch fuel path head operator tail doc afs afs' array hsp ha h1 h2 h3 hid hf hrec
+
+section Tests
+-- TEST: the WITNESS of the finding: `{$set: {"a.$[i]": 0}}`, arrayFilters `[{i: {$gt: 5}}, {j: {$ne: 1}}]`, `a: [1, 7, 9]`.
+-- The wrapper `{i: 1}` has no `j`, so the foreign filter `{j: {$ne: 1}}` holds for every element; the code used to
+-- consult it and produced [0, 0, 0].  MongoDB and now lungo: [1, 0, 0]
+def docF : Doc := [("a", .arr [.i32 1, .i32 7, .i32 9])]
+def fI : Doc := [("i", .doc [("$gt", .i32 5)])]
+def fJ : Doc := [("j", .doc [("$ne", .i32 1)])]
+#guard filterHolds schemaUnmodelled "i" (.i32 1) fJ      -- why every element was selected
+#guard okDoc (Apply ctx0 docF [("$set", .doc [("a.$[i]", .i32 0)])] [fI, fJ]) == some [("a", .arr [.i32 1, .i32 0, .i32 0])]
+#guard okDoc (Apply ctx0 docF [("$set", .doc [("a.$[i]", .i32 0)])] [fJ, fI]) == some [("a", .arr [.i32 1, .i32 0, .i32 0])]
+#guard okDoc (Apply ctx0 docF [("$set", .doc [("a.$[i]", .i32 0)])] [fI]) == some [("a", .arr [.i32 1, .i32 0, .i32 0])]
+-- the hypotheses of `array_filter_own` on this instance (non-vacuity; evaluated)
+#guard splitDynamicPath "a.$[i]" == (some "a", some "$[i]", none) && identifierOf "$[i]" == "i" && Get docF "a" == .arr [.i32 1, .i32 7, .i32 9]
+#guard splitDynamicPath "a.$[elem].b.c" == (some "a", some "$[elem]", some "b.c") && identifierOf "$[elem]" == "elem"
+#guard "$[i]".startsWith "$[" && "$[i]".endsWith "]" && noDollar "a" && countDollar "a.$[i]" + 1 == 2
+#guard bindsId "i" fI && !bindsId "i" fJ && selectedIdx schemaUnmodelled "i" [fI, fJ] [.i32 1, .i32 7, .i32 9] == [1, 2]
+#guard (match resolve schemaUnmodelled 2 "a.$[i]" docF [fI, fJ] with | .ok ps => ps == ["a.1", "a.2"] | _ => false)
+-- identifiers that are string prefixes of each other: `i` is bound by "i" and "i.k", not by "i2" / "i2.k"
+#guard bindsId "i" [("i.k", .i32 1)] && !bindsId "i" [("i2", .i32 1)] && !bindsId "i" [("i2.k", .i32 1)] && !bindsId "i2" [("i", .i32 1)]
+#guard okDoc (Apply ctx0 docF [("$set", .doc [("a.$[i]", .i32 0)])] [[("i2", .doc [("$exists", .bool false)])], fI])
+  == some [("a", .arr [.i32 1, .i32 0, .i32 0])]
+-- several filters binding the identifier: any of them selects
+#guard okDoc (Apply ctx0 docF [("$set", .doc [("a.$[i]", .i32 0)])] [fI, [("i", .i32 1)]]) == some [("a", .arr [.i32 0, .i32 0, .i32 0])]
+-- no filter binds the identifier: rejected, whatever else is supplied
+#guard isErr (Apply ctx0 docF [("$set", .doc [("a.$[i]", .i32 0)])] [fJ]) && isErr (Apply ctx0 docF [("$set", .doc [("a.$[i]", .i32 0)])] [])
+-- two identifiers in one path: each level uses its own filters (`array_filter_own_rec`)
+#guard okDoc (Apply ctx0 [("a", .arr [.arr [.i32 1, .i32 7], .arr [.i32 9]])] [("$set", .doc [("a.$[j].$[i]", .i32 0)])]
+    [fI, [("j", .doc [("$exists", .bool true)])]])
+  == some [("a", .arr [.arr [.i32 1, .i32 0], .arr [.i32 0]])]
+end Tests
 
 /-! ## §5 The change log -/
 
